@@ -249,6 +249,7 @@ namespace sim
       const char* arena = nullptr;  // start of X inside the arena (memory inputs)
       std::size_t xlen = 0;
       const char* xdata = nullptr;  // the bytes of X (for readers)
+      std::uint32_t short_by = 0;   // I/O jobs: the simulated stream ends this many bytes before the size it reports
       std::uint64_t fuel_events = 20000;
       std::uint32_t fuel_depth = 250;
 
